@@ -41,6 +41,7 @@ func checkC02(ctx *Ctx, r *Report) {
 	c02EnumMemberIdentifiers(ctx, r)
 	c02JavaSerializerConditions(ctx, r)
 	c02GoUnfoldLeafPointer(ctx, r)
+	c02GoFieldNamesNotMethods(ctx, r)
 	c02RuntimeGuard(ctx, r)
 	c02SortedSearch(ctx, r)
 	c02SortedSearchSelfTest(ctx, r)
@@ -1918,6 +1919,9 @@ func c02EqualityTypeChecks(ctx *Ctx, r *Report) {
 			r.Obls = append(r.Obls, o)
 		}
 	}
+	// the nullable branches of the equality and validation templates do not compare a by-value constant reference with nil
+	c13NilTestExcludesConstantRefs(ctx, r, ts, recEquality.define)
+	c13NilTestExcludesConstantRefs(ctx, r, ts, recValidate.define)
 }
 
 // c02ReservedWordTables: each language with a reserved-word predicate has to know the words its grammar reserves.
@@ -2983,4 +2987,77 @@ func c02GoUnfoldLeafPointer(ctx *Ctx, r *Report) {
 	visit(tree.Root)
 	r.Count("leaves of the Go template that store a built element", n)
 	r.Floor("leaves of the Go template that store a built element", 2)
+}
+
+// c02GoFieldNamesNotMethods: a Go struct can't have a field and a method of the same name. The methods generated on a
+// struct (`func (resource T) X(`) are read from the Go templates and from the string literals of the Go jenny; each
+// of them is a name the field formatter knows it has to change (the string cases of the predicate formatFieldName calls).
+func c02GoFieldNamesNotMethods(ctx *Ctx, r *Report) {
+	p := ctx.Pkg("internal/jennies/golang")
+	ts, err := loadTemplates(ctx, "golang")
+	if p == nil || err != nil {
+		r.Undecided("golang jenny / templates not loaded: %v", err)
+		return
+	}
+	info := p.TypesInfo
+	fmtField := ctx.LookupFunc("internal/jennies/golang", "formatFieldName")
+	fd, _ := ctx.DeclOf(fmtField)
+	if fd == nil {
+		r.Undecided("anchor lost: golang.formatFieldName")
+		return
+	}
+	escaped := map[string]bool{}
+	ast.Inspect(fd.Body, func(m ast.Node) bool {
+		c, ok := m.(*ast.CallExpr)
+		if !ok {
+			return true
+		}
+		fn := callee(info, c)
+		if fn == nil || fn.Pkg() != p.Types {
+			return true
+		}
+		if pfd, _ := ctx.DeclOf(fn); pfd != nil && pfd.Body != nil {
+			ast.Inspect(pfd.Body, func(q ast.Node) bool {
+				if cc, ok := q.(*ast.CaseClause); ok {
+					for _, e := range cc.List {
+						if tv, ok := info.Types[e]; ok && tv.Value != nil && tv.Value.Kind() == constant.String {
+							escaped[constant.StringVal(tv.Value)] = true
+						}
+					}
+				}
+				return true
+			})
+		}
+		return true
+	})
+	method := regexp.MustCompile(`func \(resource [^)]*\) ([A-Za-z_][A-Za-z0-9_]*)\(`)
+	needed := map[string]string{}
+	for _, name := range ts.names() {
+		for _, m := range method.FindAllStringSubmatch(tmplText(ts.trees[name].Root), -1) {
+			needed[m[1]] = ts.file[name]
+		}
+	}
+	for _, file := range p.Syntax {
+		ast.Inspect(file, func(m ast.Node) bool {
+			if lit, ok := m.(*ast.BasicLit); ok && lit.Kind == token.STRING {
+				if tv, ok := info.Types[lit]; ok && tv.Value != nil {
+					for _, mm := range method.FindAllStringSubmatch(constant.StringVal(tv.Value), -1) {
+						needed[mm[1]] = ctx.Pos(lit.Pos())
+					}
+				}
+			}
+			return true
+		})
+	}
+	names := make([]string, 0, len(needed))
+	for name := range needed {
+		names = append(names, name)
+	}
+	sort.Strings(names)
+	for _, name := range names {
+		r.Check(escaped[name], "kinds/go-field-names-not-methods", "golang method "+name+" generated on structs", token.NoPos, "formatFieldName changes a field of that name",
+			fmt.Sprintf("the Go jenny generates a method %s on structs (%s) and formatFieldName leaves a field named %s as it is: `Obj: {%s: string}` does not compile — field and method with the same name %s", name, needed[name], name, strings.ToLower(name[:1])+name[1:], name))
+	}
+	r.Count("methods generated on Go structs", len(names))
+	r.Floor("methods generated on Go structs", 5)
 }
